@@ -417,7 +417,7 @@ def lookup_cases(cid0, indexed):
 def index_sessions(tier, seed):
     rng = random.Random(seed)
     sessions = []
-    n_hist = 5 if tier == "quick" else 60
+    n_hist = 6 if tier == "quick" else 60
     for h in range(n_hist):
         steps = []
         n_nodes = 0
@@ -460,6 +460,20 @@ def index_sessions(tier, seed):
                 steps.append(("admin", "#compact"))
             else:
                 steps.append(("admin", rng.choice(["#reopen", "#close-reopen"])))
+        if h % 3 == 1:
+            # equal values created after the index, then one of the older duplicates changes
+            v = rng.choice([1, 2, "a", True])
+            k = rng.randint(2, 4)
+            steps = [("admin", "#index L1 p")]
+            steps += [("write", "CREATE (:L1 {p: %s})" % lit_text(v), "L1") for _ in range(k)]
+            victim = rng.randrange(k - 1)
+            steps.append(("write", rng.choice(["MATCH (n) WHERE id(n) = %d SET n.p = %s" % (victim, lit_text(rng.choice([x for x in IDX_VALUES if x != v]))),
+                                               "MATCH (n) WHERE id(n) = %d REMOVE n.p" % victim,
+                                               "MATCH (n) WHERE id(n) = %d DETACH DELETE n" % victim])))
+            if rng.random() < 0.5:
+                steps.append(("admin", rng.choice(["#compact", "#reopen"])))
+            steps.append(("write", "CREATE (:L1 {p: %s})" % lit_text(v), "L1"))
+            steps.append(("write", "MATCH (n) WHERE id(n) = %d SET n.p = %s" % (rng.randrange(k), lit_text(v))))
         for indexed in (True, False):
             cases, cid = [], 0
             for step in steps:
